@@ -876,13 +876,13 @@ theorem findTrailers_nil : findTrailers true [] = .done 0 := rfl
 /-- all of `frames ++ trailers frame` is buffered: the frames go out (if any), the trailers
 are stored, nothing stays behind -/
 theorem afterPoll_whole (eof : Bool) (sp : Bool) (ps : List Pair)
-    (hps : ∀ p ∈ ps, lowerNameOk p.1 = true ∧ plainValueOk p.2 = true)
+    (out : List Pair) (hdec : decodeTrailersFrame true (trailersFrame sp ps) = some (some out))
     (hb : (trailersBlock sp ps).length < 4294967296)
     (fs : List (Bool × Bytes)) (hfs : ∀ f ∈ fs, f.2.length < 4294967296) :
     afterPoll eof { decoded := framesBytes fs ++ trailersFrame sp ps, trailers := none } =
       if (framesBytes fs).length > 0
-      then .emit (.data (framesBytes fs)) { decoded := [], trailers := some ps }
-      else .again { decoded := [], trailers := some ps } := by
+      then .emit (.data (framesBytes fs)) { decoded := [], trailers := some out }
+      else .again { decoded := [], trailers := some out } := by
   have hscan : findTrailers true (framesBytes fs ++ trailersFrame sp ps) =
       .trailer (framesBytes fs).length :=
     (scan_prefix _ hb fs hfs _ [] _ (Nat.le_refl _) (by simp [trailersFrame])).1 rfl
@@ -900,7 +900,7 @@ theorem afterPoll_whole (eof : Bool) (sp : Bool) (ps : List Pair)
     rw [← hlenT]; exact List.take_length
   have hdropT : (trailersFrame sp ps).drop (5 + (trailersBlock sp ps).length) = [] := by
     rw [← hlenT]; exact List.drop_length
-  simp only [afterPoll, hscan, onTrailer, hdrop, hh, htakeT, decode_trailersFrame sp ps hps,
+  simp only [afterPoll, hscan, onTrailer, hdrop, hh, htakeT, hdec,
     hdropT, htake, mergeOpt, mergeTrailers]
 
 theorem run_filter (evs : List BodyEv) : ∀ st, run st evs = run st (evs.filter notPending) := by
@@ -947,14 +947,14 @@ theorem run_after_trailers (ps : List Pair) : ∀ (chunks : List Bytes), chunks.
 buffered and however the rest is cut into chunks, the caller gets data frames carrying
 exactly the message frames, then the trailers, then the end. -/
 theorem run_valid (sp : Bool) (ps : List Pair)
-    (hps : ∀ p ∈ ps, lowerNameOk p.1 = true ∧ plainValueOk p.2 = true)
+    (out : List Pair) (hdec : decodeTrailersFrame true (trailersFrame sp ps) = some (some out))
     (hb : (trailersBlock sp ps).length < 4294967296) :
     ∀ (chunks : List Bytes) (fs : List (Bool × Bytes)) (D : Bytes),
       (∀ f ∈ fs, f.2.length < 4294967296) →
       D ++ chunks.flatten = framesBytes fs ++ trailersFrame sp ps →
       ∃ datas : List Bytes,
         run { decoded := D, trailers := none } (chunks.map BodyEv.data) =
-          datas.map Out.data ++ [.trailers ps, .eos] ∧
+          datas.map Out.data ++ [.trailers out, .eos] ∧
         datas.flatten = framesBytes fs := by
   intro chunks
   induction chunks with
@@ -962,15 +962,15 @@ theorem run_valid (sp : Bool) (ps : List Pair)
     intro fs D hfs hD
     simp only [List.flatten_nil, List.append_nil] at hD
     subst hD
-    have hstep := afterPoll_whole true sp ps hps hb fs hfs
-    have hfin : drain 2 { decoded := [], trailers := some ps } = [.trailers ps, .eos] := by
+    have hstep := afterPoll_whole true sp ps out hdec hb fs hfs
+    have hfin : drain 2 { decoded := [], trailers := some out } = [.trailers out, .eos] := by
       simp only [drain, afterPoll, findTrailers_nil, if_true, onExhausted, Bool.not_true,
         Bool.false_eq_true, if_false, List.isEmpty_nil]
     obtain ⟨k, hk⟩ : ∃ k, (framesBytes fs ++ trailersFrame sp ps).length + 3 = (k + 2) + 1 :=
       ⟨(framesBytes fs ++ trailersFrame sp ps).length, by omega⟩
     simp only [List.map_nil, run, hk]
     rw [drain, hstep]
-    have hfin' : ∀ k, drain (k + 2) { decoded := [], trailers := some ps } = [.trailers ps, .eos] := by
+    have hfin' : ∀ k, drain (k + 2) { decoded := [], trailers := some out } = [.trailers out, .eos] := by
       intro k
       simp only [drain, afterPoll, findTrailers_nil, if_true, onExhausted, Bool.not_true,
         Bool.false_eq_true, if_false, List.isEmpty_nil]
@@ -994,11 +994,11 @@ theorem run_valid (sp : Bool) (ps : List Pair)
     by_cases hX : cs.flatten = []
     · -- everything has arrived
       have hDc : D ++ c = framesBytes fs ++ trailersFrame sp ps := by simpa [hX] using hD1
-      rw [hDc, afterPoll_whole false sp ps hps hb fs hfs]
+      rw [hDc, afterPoll_whole false sp ps out hdec hb fs hfs]
       by_cases hl : (framesBytes fs).length > 0
-      · simp only [hl, if_true, run_after_trailers ps cs hX]
+      · simp only [hl, if_true, run_after_trailers out cs hX]
         exact ⟨[framesBytes fs], by simp, by simp⟩
-      · simp only [hl, if_false, run_after_trailers ps cs hX]
+      · simp only [hl, if_false, run_after_trailers out cs hX]
         have : framesBytes fs = [] := by
           cases hfb : framesBytes fs with
           | nil => rfl
@@ -1383,5 +1383,107 @@ theorem run_clean : ∀ (evs : List BodyEv) (st : St), (run st evs).getLast? = s
         have := cleanSpec_step ht (ih st' h) [] (by simp)
         obtain ⟨its, hv, hd, hdata⟩ := this
         exact ⟨its, hv, by rw [← hflat]; exact hd, by simpa using hdata⟩
+
+
+/-! ### names in any case (other servers write `Grpc-Status`) -/
+
+theorem nameByte_any_tab : ∀ n : Fin 256, tchar (UInt8.ofNat n.val) = true →
+      headerNameByte (UInt8.ofNat n.val) = some (Ascii.toLower (UInt8.ofNat n.val)) ∧
+      UInt8.ofNat n.val ≠ 58 ∧ UInt8.ofNat n.val ≠ 13 := by
+  decide +kernel
+
+theorem nameByte_any (b : UInt8) (h : tchar b = true) :
+    headerNameByte b = some (Ascii.toLower b) ∧ b ≠ 58 ∧ b ≠ 13 := by
+  have := nameByte_any_tab ⟨b.toNat, b.toNat_lt⟩
+  simpa using this (by simpa using h)
+
+theorem mapOpt_fun {α β : Type} (f : α → Option β) (g : α → β) : ∀ (l : List α),
+    (∀ x ∈ l, f x = some (g x)) → mapOpt f l = some (l.map g) := by
+  intro l
+  induction l with
+  | nil => intro _; rfl
+  | cons x xs ih =>
+    intro h
+    simp only [List.map_cons, mapOpt, h x (by simp), ih (fun y hy => h y (by simp [hy]))]
+
+open Spec.GrpcWeb (anyCaseNameOk lowerName) in
+theorem parseName_any (k : Bytes) (h : anyCaseNameOk k = true) :
+    parseName k = some (lowerName k) := by
+  simp only [anyCaseNameOk, Bool.and_eq_true, Bool.not_eq_eq_eq_not, Bool.not_true,
+    decide_eq_true_eq, List.all_eq_true] at h
+  obtain ⟨⟨h1, h2⟩, h3⟩ := h
+  have hlen : ¬ k.length > 65535 := by omega
+  simp only [parseName, h1, hlen, Bool.false_or, decide_false, Bool.false_eq_true, if_false]
+  exact mapOpt_fun _ _ k (fun b hb => (nameByte_any b (h3 b hb)).1)
+
+open Spec.GrpcWeb (anyCaseNameOk lowerName) in
+theorem name_any_no_sep (k : Bytes) (h : anyCaseNameOk k = true) : ∀ b ∈ k, b ≠ 58 ∧ b ≠ 13 := by
+  simp only [anyCaseNameOk, Bool.and_eq_true, List.all_eq_true] at h
+  intro b hb
+  exact (nameByte_any b (h.2 b hb)).2
+
+open Spec.GrpcWeb (anyCaseNameOk lowerName) in
+theorem parseLine_any (sp : Bool) (p : Pair) (hk : anyCaseNameOk p.1 = true)
+    (hv : plainValueOk p.2 = true) :
+    parseLine true (p.1 ++ (if sp then [58, 32] else [58]) ++ p.2) = some (lowerName p.1, p.2) := by
+  simp only [plainValueOk, Bool.and_eq_true, bne_iff_ne, ne_eq] at hv
+  have hk58 : ∀ b ∈ p.1, b ≠ 58 := fun b hb => (name_any_no_sep p.1 hk b hb).1
+  have hcr := value_no_cr p.2 hv.1
+  have hline : p.1 ++ (if sp then [58, 32] else [58]) ++ p.2 =
+      p.1 ++ 58 :: ((if sp then [32] else []) ++ p.2) := by
+    cases sp <;> simp
+  have hstrip : stripSpace ((if sp then [32] else []) ++ p.2) = p.2 := by
+    cases sp
+    · simpa using stripSpace_plain p.2 hcr hv.2
+    · simpa using stripSpace_space p.2 hcr
+  simp only [parseLine, lineKV, if_true, hline, splitFirst_sep p.1 _ hk58 [], List.reverse_nil,
+    List.nil_append, hstrip, parseName_any p.1 hk, parseValue_ok p.2 hv.1]
+
+open Spec.GrpcWeb (anyCaseNameOk lowerName) in
+theorem block_lines_any (sp : Bool) (ps : List Pair)
+    (h : ∀ p ∈ ps, anyCaseNameOk p.1 = true ∧ plainValueOk p.2 = true) :
+    crlfLines [] (trailersBlock sp ps) =
+      ps.map (fun p => p.1 ++ (if sp then [58, 32] else [58]) ++ p.2) := by
+  induction ps with
+  | nil => simp [trailersBlock, crlfLines]
+  | cons p ps ih =>
+    have hp := h p (by simp)
+    have hv := hp.2
+    simp only [plainValueOk, Bool.and_eq_true] at hv
+    have hl : ∀ b ∈ p.1 ++ (if sp then [58, 32] else [58]) ++ p.2, b ≠ 13 := by
+      intro b hb
+      simp only [List.mem_append] at hb
+      rcases hb with (hb | hb) | hb
+      · exact (name_any_no_sep p.1 hp.1 b hb).2
+      · cases sp <;> simp at hb <;> rcases hb with rfl | rfl <;> decide
+      · exact value_no_cr p.2 hv.1 b hb
+    have e : trailersBlock sp (p :: ps) =
+        (p.1 ++ (if sp then [58, 32] else [58]) ++ p.2) ++ 13 :: 10 :: trailersBlock sp ps := by
+      simp [trailersBlock, lineOfSp, List.flatMap_cons]
+    rw [e, crlfLines_line _ hl, ih (fun q hq => h q (by simp [hq]))]
+    simp
+
+theorem mapOpt_map_fun {α β γ : Type} (f : α → Option γ) (g : β → α) (k : β → γ) :
+    ∀ (l : List β), (∀ x ∈ l, f (g x) = some (k x)) → mapOpt f (l.map g) = some (l.map k) := by
+  intro l
+  induction l with
+  | nil => intro _; rfl
+  | cons x xs ih =>
+    intro h
+    simp only [List.map_cons, mapOpt, h x (by simp), ih (fun y hy => h y (by simp [hy]))]
+
+open Spec.GrpcWeb (anyCaseNameOk lowerName) in
+/-- names written in any case arrive in lower case, values untouched -/
+theorem decode_trailersFrame_any (sp : Bool) (ps : List Pair)
+    (h : ∀ p ∈ ps, anyCaseNameOk p.1 = true ∧ plainValueOk p.2 = true) :
+    decodeTrailersFrame true (trailersFrame sp ps) =
+      some (some (ps.map (fun p => (lowerName p.1, p.2)))) := by
+  have hlen : ¬ (trailersFrame sp ps).length < 5 := by
+    rw [trailersFrame, rawFrame_length]; omega
+  have hdrop : (trailersFrame sp ps).drop 5 = trailersBlock sp ps := by
+    simp [trailersFrame, rawFrame, u32be]
+  simp only [decodeTrailersFrame, hlen, if_false, hdrop, block_lines_any sp ps h, if_true]
+  rw [mapOpt_map_fun _ _ (fun p => (lowerName p.1, p.2)) ps
+    (fun p hp => parseLine_any sp p (h p hp).1 (h p hp).2)]
 
 end WebClientLemmas
